@@ -3,6 +3,7 @@
 rendered layouts + cusparse arrays + jac_pattern.dat + macros; oracle: CSR validity, equality of
 the (row, col, value) triples of all layouts, every literal subscript below the declared size."""
 import random
+from fractions import Fraction
 import re
 
 from .. import framework as fw
@@ -51,6 +52,64 @@ def subscripts_in_bounds(src, macros, where):
         if int(r) >= NEQ or int(c) >= NEQ:
             return f"{where}: Jacobian subscript ({r},{c}) outside NEQUATIONS={NEQ}"
     return None
+
+
+def exec_layouts(res, a, desc, rng, case):
+    """channel C: the rendered dense and sparse CVODE Jac and the Odeint Jac functor compiled as they stand and called with the same
+    coefficients and abundances: the CSR arrays the sparse routine fills are the generator's, the matrix rebuilt from them equals the
+    dense one entry for entry, so does the Odeint matrix (which must zero what it omits), and nothing non-zero lies outside the pattern"""
+    if not a.species:
+        return
+    j = a.ode.jac
+    n = j.nrow
+    nre = len(a.info.reactions)
+    ko = [Fraction(l % 13 + 3, 16) for l in range(nre)]
+    thermal = bool(a.info.heating or a.info.cooling)
+    y = [Fraction(rng.randint(1, 64), 8) for _ in a.aliases] + ([Fraction(100)] if thermal else [])
+    kh = [Fraction(rng.randint(1, 8), 8) for _ in a.info.heating]
+    kc = [Fraction(rng.randint(1, 8), 8) for _ in a.info.cooling]
+    methods = ["dense", "sparse"] + ([] if (thermal or desc.get("rate_modifier") or desc.get("tmin") or desc.get("tmax")) else ["odeint"])
+    preps = [ol.prep_odeint(desc, ko) if m == "odeint" else ol.prep_fexjac(desc, m) for m in methods]
+    diags = ol.compile_all([c for c, _ in preps])
+    outs = {}
+    for m, (_, exe), diag in zip(methods, preps, diags):
+        out = None
+        if diag is None:
+            out, diag = ol.run_fexjac(exe, [y] if m == "odeint" else [ko + kh + kc + y])
+        if out is None:
+            if desc.get("ode_modifier") and "does not compile" in (diag or ""):
+                res.count("channel C skipped: modifier factor with user symbols")
+                ol.cleanup_scratch()
+                return
+            res.corr_disagreements += 1
+            res.violation("correspondence", f"channel C ({m}, compiled): {diag}", case)
+            ol.cleanup_scratch()
+            return
+        outs[m] = out[0]
+        res.count(f"executed:{m}")
+    ol.cleanup_scratch()
+    sp = outs["sparse"]
+    rows_, cols_ = sp["S"]
+    if not sp["J_ok"] or rows_ != [int(x) for x in j.rows] or cols_ != [int(x) for x in j.cols]:
+        res.violation("oracle", f"channel C: the compiled sparse Jac fills rowptrs={rows_[:10]} colvals={cols_[:10]}; the generator's arrays are "
+                      f"{list(j.rows)[:10]} / {list(j.cols)[:10]}", case)
+        return
+    stored = {(r, cols_[p]) for r in range(n) for p in range(rows_[r], rows_[r + 1])}
+    for m in methods[1:]:
+        for r in range(n):
+            for c in range(n):
+                if thermal and (r == n - 1 or c == n - 1) and m == "odeint":
+                    continue
+                d_, o_ = outs["dense"]["J"][r][c], outs[m]["J"][r][c]
+                if abs(d_ - o_) > 1e-12 * max(1.0, abs(d_)):
+                    res.violation("oracle", f"channel C: entry ({r},{c}) of the compiled {m} Jacobian is {o_!r}, of the dense one {d_!r} "
+                                  f"(y = {[float(v) for v in y][:6]})", dict(case, y=[str(v) for v in y]))
+                    return
+    for r in range(n):
+        for c in range(n):
+            if outs["dense"]["J"][r][c] != 0.0 and (r, c) not in stored:
+                res.violation("oracle", f"channel C: the compiled dense Jacobian is non-zero at ({r},{c}), which the CSR pattern does not store", case)
+                return
 
 
 def check_desc(res, model, desc, rng, tag, channel_b=False):
@@ -136,6 +195,7 @@ def check_desc(res, model, desc, rng, tag, channel_b=False):
                 diff = set(canon_mat(per[method]).items()) ^ set(ref.items())
                 res.violation("oracle", f"channel B: {method} layout differs from dense at {sorted(k for k, _ in diff)[:5]}", case)
         ol.cleanup_scratch()
+        exec_layouts(res, a, desc, rng, case)
     res.case(("c03", tag, ol.nontrivial_sig(desc)),
              sample={"n_eqns": n, "nnz": j.nnz, "rowptrs": list(j.rows)[:8], "colvals": list(j.cols)[:8]},
              nontrivial=j.nnz > 0)
